@@ -30,9 +30,25 @@ Definition lst_val (n : val A) (l : list A) : val A :=
 Definition stk_val (cls : val A) (n : val A) (cap : Z) (l : list A) : val A :=
   VObj id_stack_ [(f_int0, VInt cap); (f_nil0, cls); (f_nil1, lst_val n l)].
 
-(* no external methods are needed by the functions translated so far *)
+(* collection/set.go: set_ {class_ (nil0), collator_ (nil1), values_ (nil2)}; the collator is an object of the
+   untranslated type collator_ whose RankValues is answered by the oracle [rank_ext] *)
+Definition col_val : val A := VObj id_collator_ [].
+Definition set_val (cls : val A) (n : val A) (l : list A) : val A :=
+  VObj id_set_ [(f_nil0, cls); (f_nil1, col_val); (f_nil2, lst_val n l)].
+(* age.LesserRank / EqualRank / GreaterRank = 0 / 1 / 2 (const .. = iota, read by the translator) *)
+Definition rank_code (c : comparison) : Z := match c with Lt => 0 | Eq => 1 | Gt => 2 end.
+Definition rank_ext (rank : A -> A -> comparison) (t m : ident) (r : val A) (args : list (val A)) : option (val A) :=
+  if Pos.eqb t id_collator_ && Pos.eqb m id_RankValues then
+    match args with
+    | [VElem a; VElem b] => Some (VInt (rank_code (rank a b)))
+    | _ => None
+    end
+  else None.
+
+(* no external methods are needed by the other functions translated so far *)
 Definition no_ext (t m : ident) (r : val A) (args : list (val A)) : option (val A) := None.
 End Rep.
 
 Arguments elems {A}. Arguments it_val {A}. Arguments arr_val {A}. Arguments lcls_val {A}.
 Arguments lst_val {A}. Arguments stk_val {A}. Arguments no_ext {A}.
+Arguments col_val {A}. Arguments set_val {A}. Arguments rank_ext {A}.
